@@ -10,6 +10,16 @@ DECK = {'surfs': [{'n': 1, 'k': 'so', 'p': [3]}, {'n': 2, 'k': 'px', 'p': [0]}, 
         'cells': [{'n': 1, 'geom': ['*', ['S', -1, 0], [':', ['S', -2, 0], ['S', 4, 0]]]}, {'n': 2, 'geom': ['*', ['S', -1, 0], ['C', 1]]},
                   {'n': 3, 'geom': ['*', ['S', 1, 0], ['S', 3, 0]], 'imp': 0}, {'n': 4, 'geom': ['*', ['S', 1, 0], ['S', -3, 0]], 'imp': 0}]}
 
+LATDECK = {'surfs': [{'n': 1, 'k': 'so', 'p': [6]}, {'n': 11, 'k': 'px', 'p': [1]}, {'n': 12, 'k': 'px', 'p': [-1]},
+                     {'n': 13, 'k': 'py', 'p': [1]}, {'n': 14, 'k': 'py', 'p': [-1]}, {'n': 21, 'k': 'pz', 'p': [0]}],
+           'cells': [{'n': 1, 'geom': ['S', -1, 0], 'fill': 1}, {'n': 2, 'geom': ['S', 1, 0], 'imp': 0},
+                     {'n': 10, 'geom': ['*', ['S', -11, 0], ['S', 12, 0], ['S', -13, 0], ['S', 14, 0]], 'u': 1, 'lat': 1,
+                      'lranges': [[-1, 1], [0, 1]], 'lunivs': [2, 3, 2, 0, 1, 3], 'lvecs': [[4, 0, 0], [0, 4, 0]], 'mat': 1,
+                      'rho': 1, 'rhotxt': '-1.0'},
+                     {'n': 21, 'geom': ['S', -21, 0], 'u': 2}, {'n': 22, 'geom': ['S', 21, 0], 'u': 2},
+                     {'n': 31, 'geom': ['S', 21, 0], 'u': 3}, {'n': 32, 'geom': ['S', -21, 0], 'u': 3}]}
+
+
 def main():
     rng = random.Random(0)
     d = adeck.normalise(DECK); d['pts'] = adeck.grid_points(rng, 80, -9, 9)
@@ -30,6 +40,21 @@ def main():
         v = pipeline.validate(chk, [dict(r, tid=1)], {1: d})[1]
         print('%-60s -> %s' % (name, sorted(map(tuple, v['bad'])) or 'accepted'))
         ok = ok and ((name == 'unmodified') == (not v['bad']))
+    # the lattice pass: a real trace of a lattice deck, one recorded element dropped / displaced / given another universe
+    ld = adeck.normalise(LATDECK); ld['pts'] = adeck.grid_points(rng, 60, -9, 9)
+    lrec = pipeline.run_traced({'tid': 1, 'deck': ld, 'opts': []})
+    lvariants = {'lattice deck, unmodified': lrec}
+    r = copy.deepcopy(lrec); st = next(s for s in r['stages'] if s['stage'] == 'lattice'); st['elems'].pop()
+    lvariants['one element of the lattice stage dropped'] = r
+    r = copy.deepcopy(lrec); st = next(s for s in r['stages'] if s['stage'] == 'lattice'); st['elems'][0]['o2'][0] += 4
+    lvariants['one element of the lattice stage displaced'] = r
+    r = copy.deepcopy(lrec); st = next(s for s in r['stages'] if s['stage'] == 'lattice')
+    st['elems'][0]['fill'] = 3 if st['elems'][0]['fill'] != 3 else 2
+    lvariants['one element of the lattice stage filled with another universe'] = r
+    for name, r in lvariants.items():
+        v = pipeline.validate(chk, [dict(r, tid=1)], {1: ld})[1]
+        print('%-60s -> %s' % (name, sorted(map(tuple, v['bad'])) or 'accepted'))
+        ok = ok and ((name == 'lattice deck, unmodified') == (not v['bad']))
     print('binding demonstration', 'OK' if ok else 'FAILED')
     return 0 if ok else 1
 sys.exit(main())
